@@ -499,6 +499,15 @@ def access(S, ob, t, kmax=5, timeout=120):
     return count
 
 
+def set_tier(S):
+    """thorough: one more vector item and one more extra field per level"""
+    global VEC_ITEMS, EXTRA_FIELDS
+    if getattr(S, "tier", "quick") == "thorough":
+        VEC_ITEMS, EXTRA_FIELDS = 3, 2
+    else:
+        VEC_ITEMS, EXTRA_FIELDS = 2, 1
+
+
 def dynamic_types():
     return [t for t in ORDER if fixed_size(t) is None]
 
